@@ -43,6 +43,45 @@ def scenarios() -> list[dict]:
     ]
 
 
+def resources_history(cache_type: str) -> dict:
+    """A mapped function whose result depends on callable, map-scoped resources (cpus = length of the whole input): two runs
+    with DIFFERENT inputs that share element values on the same pipeline (and cache).  The evaluated resources belong to
+    the cache key; answering the second run's elements from the first run's entries would be stale."""
+    ms = {"ins": [{"name": "a", "axes": ["i"]}], "outs": [{"name": "y", "axes": ["i"]}]}
+    fn = {"name": "f", "params": ["a"], "outputs": ["y"], "defaults": [], "bound": [], "has_ms": True, "ms": ms,
+          "internal": [], "cache": True, "rescpus": "a"}
+    desc = {"funcs": [fn]}
+    in1 = [["a", arr(["@p", "@q", "@r"])]]
+    in2 = [["a", arr(["@p", "@q"])]]
+    pdesc = pmap.tla_desc_to_py(desc)
+    pdesc["cache_type"] = cache_type
+    tmp = tempfile.mkdtemp(prefix="pfverif_c09r_")
+    if cache_type == "disk":
+        pdesc["cache_kwargs"] = {"cache_dir": tmp + "/cache"}
+    elif cache_type in ("lru", "hybrid"):
+        pdesc["cache_kwargs"] = {"shared": False}
+    build.reset_log()
+    evs: list[dict] = []
+    try:
+        with contextlib.redirect_stdout(io.StringIO()):
+            pl = build.make_pipeline(pdesc)
+        for run, inputs in enumerate((in1, in2, in1)):
+            inp = pmap.inputs_to_py(inputs, {"a": "list"})
+            e, res = pmap.do_map(pl, pdesc, inp, run_folder=tmp + f"/run{run}", storage="dict", parallel=False, cleanup=True,
+                                 load=False)
+            if run:
+                for x in e:
+                    if x["e"] in ("begin", "reject"):
+                        x["new_inputs"] = inputs
+            evs += e
+            if isinstance(res, Exception):
+                break
+    finally:
+        shutil.rmtree(tmp, ignore_errors=True)
+    return {"desc": build.desc_to_tla(pdesc) | {}, "inputs": in1, "ev": evs,
+            "meta": {"scenario": "resources", "cache_type": cache_type, "parallel": False}}
+
+
 def history(scen: dict, cache_type: str, parallel: bool) -> dict:
     pdesc = pmap.tla_desc_to_py(scen["desc"])
     pdesc["cache_type"] = cache_type
@@ -81,6 +120,8 @@ def run(ctx) -> None:
         for ct in (["lru"] if quick else ["lru", "hybrid", "simple"]):
             for _ in range(1 if quick else 5):
                 traces.append(history(scen, ct, True))
+    for ct in (["simple", "lru"] if quick else ["simple", "lru", "hybrid", "disk"]):
+        traces.append(resources_history(ct))
     for t in traces:
         ncall = sum(1 for e in t["ev"] if e["e"] == "call")
         ctx.case({"map-cache": t["meta"], "calls": ncall}, nontrivial=True)
